@@ -84,6 +84,17 @@ Theorem C02_fitting_table_covers :
   /\ (forall n, In n ["a0"; "a1"; "a2"] -> lookup n fit_syms = Some (n, SymReal)).
 Proof. exact fit_covers. Qed.
 
+(* every symbol entry of either table binds a name to the symbol of the same name *)
+Theorem C02_symbol_entries_are_identities : forall k v kind,
+  (In (k, (v, kind)) gen_syms \/ In (k, (v, kind)) fit_syms) -> k = v.
+Proof.
+  exact (fun k v kind H => match H with
+                           | or_introl H1 => syms_identity_spec gen_syms k v kind (proj1 syms_identity_ok) H1
+                           | or_intror H2 => syms_identity_spec fit_syms k v kind (proj2 syms_identity_ok) H2
+                           end).
+Qed.
+Print Assumptions C02_symbol_entries_are_identities.
+
 Theorem C02_tables_agree :
   (forall f g, lookup "sqrt_abs" gen_fun1 = Some f -> lookup "sqrt" fit_fun1 = Some g -> forall a, f a = g a) /\
   (forall f g, lookup "log_abs" gen_fun1 = Some f -> lookup "log" fit_fun1 = Some g -> forall a, f a = g a) /\
